@@ -1,15 +1,17 @@
-\* behaviour generation (simulation): environment steps only at rest, one timeout, one empty poll
+\* behaviour sampling (tlc -simulate): environment acts at rest; bounds are rewritten by lib/checks/c16.py
 CONSTANTS
   N = 2
   MaxSess = 6
   Round = 8
   AsIs_D11 = FALSE
   Pattern = "suffix"
-  AllowNonTLS = FALSE
-  Classes = {"in_wss", "out_wss"}
+  AllowNonTLS = TRUE
+  Classes = {"in_ws", "out_ws"}
   MaxNoOffer = 1
   MaxTimeouts = 1
   EnvAtQuiet = TRUE
+  GenNoFaults = FALSE
+  GenHold = 0
 SPECIFICATION Spec
 INVARIANTS TypeOK
 CHECK_DEADLOCK FALSE
